@@ -9,5 +9,7 @@ def run(rep, tier, seed):
     bounds = [(3, 1), (3, 2), (3, 3), (4, 4)] if tier == "quick" else [(3, 1), (3, 2), (3, 3), (4, 4), (4, 5)]
     run_cfgs(rep, [dict(system="system-z", N=N, M=M, pm="") for N, M in bounds])
     need_both_answers(rep)
+    from ._common import lookalike_history
+    lookalike_history(rep, 'system-z', '')
     drive.stub_validation(rep, systems=["system-z"])
     rep.assumptions.append("bounds: (N,M) in %s; strict mode; keys 1..M; opaque formulas" % (bounds,))
